@@ -166,20 +166,22 @@ func cmdCheck(args []string) int {
 			if f == nil {
 				return engineErr("function %s.%s not found in the current tree", t.pc.PkgPath, name)
 			}
-			g, err := GenFunc(prog, f, fc, t.pc)
+			gs, err := GenFuncAll(prog, f, fc, t.pc)
 			if err != nil {
 				return engineErr("outside the supported subset: %v", err)
 			}
-			if len(g.obls) == 0 {
-				return engineErr("function %s generated no obligations (vacuous contract)", g.fname)
+			for _, g := range gs {
+				if len(g.obls) == 0 {
+					return engineErr("function %s generated no obligations (vacuous contract)", g.fname)
+				}
+				gens = append(gens, g)
+				all = append(all, g.obls...)
+				ns := sortedKeys(g.notes)
+				for _, n := range ns {
+					notes[n] = true
+				}
+				fnReports = append(fnReports, fnReport{Name: g.fname, Mode: g.mode, Obligations: len(g.obls), Notes: ns})
 			}
-			gens = append(gens, g)
-			all = append(all, g.obls...)
-			ns := sortedKeys(g.notes)
-			for _, n := range ns {
-				notes[n] = true
-			}
-			fnReports = append(fnReports, fnReport{Name: g.fname, Mode: g.mode, Obligations: len(g.obls), Notes: ns})
 		}
 		for _, ln := range t.pd.Lemmas {
 			lg, err := GenLemma(prog, t.pc, ln)
@@ -223,8 +225,14 @@ func cmdCheck(args []string) int {
 	// vacuity guards: cover queries
 	covers := buildCovers(gens, *tier == "thorough")
 	tSolve := time.Now()
-	discharge(append(append([]*Oblig{}, all...), residuals...), workdir, timeout, retry, useAll, 6)
-	coverFail := runCovers(covers, workdir, 6)
+	workers := 6
+	if s := os.Getenv("VERIF_WORKERS"); s != "" {
+		if n, err := strconv.Atoi(s); err == nil && n > 0 && n <= 64 {
+			workers = n
+		}
+	}
+	discharge(append(append([]*Oblig{}, all...), residuals...), workdir, timeout, retry, useAll, workers)
+	coverFail := runCovers(covers, workdir, workers)
 	// type-level frame obligations are decided by the frame checker (no solver)
 	nFrameFns := map[string]int{}
 	for _, it := range immTargets {
